@@ -159,3 +159,11 @@ META["C14"] = dict(
     level_text="Exploration: generated multi-package schema sets (imports with aliases, enums, nested structs, every message field kind, lists, keyword names, tags to 65535, services with every method shape and subservices) must be accepted and their output must compile; for every base set each of 42 single-rule mutation operators (every operator is required to occur) is applied at a drawn site: the tool must never panic or hang, must exit non-zero with an error naming the mutated element when a listed rule is broken, must not exit 0 on a lexical error, and whatever it accepts must compile.",
     level_note="One site per operator and base set (sites vary across base sets). Error naming is a substring check.",
 )
+
+META["C05"] = dict(
+    engine="lang",
+    design_ref="DESIGN.md 3/C05",
+    technique="translation validation by property-based testing: grammar-directed schema generation, real `spec generate`, and harness-emitted drivers inside each generated package that check round trip, tag/wire-type interchangeability against an independent codec, struct/enum codecs and regeneration determinism over random values",
+    level_text="Translation validation over generated schema sets (programs): every accepted set is compiled by the real generator and a driver emitted into each generated package draws random values of every declared message, struct and enum (value model = the harness' value trees) and checks writer->reader identity including presence, that the generated writer's bytes carry exactly the declared tags and wire types (read by an independent decoder and compared byte-for-byte with the tag-based encoding), that bytes written by tag are read by the generated accessors, struct EncodeTo/Decode inverse with sizes, enum constants/codecs, imported and aliased types, keyword-named fields, tags to 65535; regenerating twice more must give identical files; services must type-check.",
+    level_note="RPC service code is compiled but not executed here. Names satisfy the hygiene precondition of the property.",
+)
